@@ -12,7 +12,7 @@ from core import HarnessError, log
 
 CRIT_CFG = 'SPECIFICATION Spec\nCONSTANTS MaxRects = %d XMax = %d Heights = {1,2} Mode = "criterion"\nINVARIANTS Unique NoShorterInside\nCHECK_DEADLOCK FALSE\n'
 FUN_CFG = ('SPECIFICATION Spec\nCONSTANTS MaxRects = %d XMax = %d Heights = %s\nINVARIANTS TriangulationTiles TriangleCount EveryPointCovered '
-           'DualIsTree Returns EndToStart IsShortest DequeFits\nCHECK_DEADLOCK FALSE\n')
+           'DualIsTree Returns EndToStart IsShortest DequeFits PolygonIsOutline CornersOnOutline\nCHECK_DEADLOCK FALSE\n')
 FUN_GOAL_CFG = 'SPECIFICATION Spec\nCONSTANTS MaxRects = 3 XMax = 3 Heights = {2}\nINVARIANTS %s\nCHECK_DEADLOCK FALSE\n'
 FIT_CFG = 'SPECIFICATION FSpec\nCONSTANTS MaxPath = %d\nINVARIANTS NeverBad TilesWhenDone\nPROPERTIES Termination Decreases\nCHECK_DEADLOCK FALSE\n'
 # GeomTrace extends three modules with constants: they are irrelevant for trace validation but must be bound
@@ -454,7 +454,7 @@ def c19_check(prop, tier, seed, replay):
         r = core.run_tlc(work, "Funnel", "Funnel.tla", FUN_CFG % (fa, fb, fh_), workers=core.NCPU, tag="funnel", timeout=6000)
         if not r["ok"]:
             raise HarnessError("Funnel.tla: the transcribed design of geom.Shortest fails at small scope (a model finding, not a verdict on the code):\n" + r["out"][-3000:])
-        models.append(dict(name="Funnel.tla (FunnelOps: TriangulationTiles, TriangleCount, EveryPointCovered, DualIsTree, Returns, EndToStart, IsShortest, DequeFits), "
+        models.append(dict(name="Funnel.tla (FunnelOps: TriangulationTiles, TriangleCount, EveryPointCovered, DualIsTree, Returns, EndToStart, IsShortest, DequeFits, PolygonIsOutline, CornersOnOutline), "
                                 "MaxRects=%d XMax=%d Heights=%s" % (fa, fb, fh_), **{k: r[k] for k in ("generated", "distinct", "wall", "ok")}))
         for goal in ("GoalBend", "GoalTrim"):
             g = core.run_tlc(work, "Funnel", "Funnel.tla", FUN_GOAL_CFG % goal, workers=4, tag="funnel-" + goal, timeout=3000)
